@@ -337,7 +337,10 @@ func (s *Session) onSetup(resp *Response, req *Request) {
 		return
 	}
 
-	err = s.transport.ParseTransport(chindex, ts)
+	// 在副本上解析和检查，被拒绝的 SETUP 不能改变会话已协商好的传输设置
+	transport := s.transport
+	mode := s.mode
+	err = transport.ParseTransport(chindex, ts)
 	if err != nil {
 		resp.StatusCode = StatusInvalidParameter
 		resp.Status = err.Error()
@@ -345,13 +348,13 @@ func (s *Session) onSetup(resp *Response, req *Request) {
 	}
 
 	// 检查和以前的命令是否一致
-	if s.mode == UnknownSession {
-		s.mode = s.transport.Mode
+	if mode == UnknownSession {
+		mode = transport.Mode
 	}
 
-	if s.mode != s.transport.Mode {
+	if mode != transport.Mode {
 		resp.StatusCode = StatusInvalidParameter
-		if s.mode == PlaySession {
+		if mode == PlaySession {
 			resp.Status = "Current state can't setup as record"
 		} else {
 			resp.Status = "Current state can't setup as play"
@@ -360,17 +363,18 @@ func (s *Session) onSetup(resp *Response, req *Request) {
 	}
 
 	// record 只支持 TCP 单播
-	if s.mode == RecordSession {
+	if mode == RecordSession {
 		// 检查用户权限
 		if !s.checkPermission(auth.PushRight) {
 			resp.StatusCode = StatusForbidden
 			return
 		}
 
-		if s.transport.Type != RTPTCPUnicast {
+		if transport.Type != RTPTCPUnicast {
 			resp.StatusCode = StatusUnsupportedTransport
 			resp.Status = "when mode = record，only support tcp unicast"
 		} else {
+			s.transport, s.mode = transport, mode
 			if s.status < statusReady { // 初始状态切换到Ready
 				s.status = statusReady
 			}
@@ -384,7 +388,7 @@ func (s *Session) onSetup(resp *Response, req *Request) {
 		return
 	}
 
-	if s.transport.Type == RTPMulticast { // 需要修改回复的transport
+	if transport.Type == RTPMulticast { // 需要修改回复的transport
 		st := media.GetOrCreate(s.path)
 		if st == nil { // 没有找到源
 			resp.StatusCode = StatusNotFound
@@ -403,6 +407,7 @@ func (s *Session) onSetup(resp *Response, req *Request) {
 		resp.Header.Set(FieldTransport, ts)
 	}
 
+	s.transport, s.mode = transport, mode
 	if s.status < statusReady { // 初始状态切换到Ready
 		s.status = statusReady
 	}
